@@ -37,7 +37,7 @@ func (g *gen) goTo(c gctx, t int64, lexical bool) *Form {
 }
 
 var kinds = []string{"block", "tagbody", "unwind", "mutex", "ignore", "recover", "file", "let", "letinit",
-	"progn", "when", "whentest", "cond", "condtest", "dolist", "dotimes", "do", "loopres", "list", "lam", "callu",
+	"progn", "when", "whentest", "unless", "unlesstest", "if", "iftest", "cond", "condtest", "dolist", "dotimes", "do", "loopres", "list", "lam", "callu",
 	"unwindcleanup", "recoverh", "retval"}
 
 type gen struct {
@@ -427,6 +427,26 @@ func (g *gen) spine(d int, c gctx) *Form {
 		return &Form{K: "When", C: g.test(), A: g.body(n, g.pickPos(n), d-1, same(c))}
 	case "whentest":
 		return &Form{K: "When", C: g.spine(d-1, c), A: []*Form{g.filler(), g.filler()}}
+	case "unless":
+		n := g.pickN()
+		t := g.test()
+		if t.K == "Const" && g.rng.Chance(85) {
+			t = &Form{K: "Const", Lit: "nil"} // the body runs
+		}
+		return &Form{K: "Unless", C: t, A: g.body(n, g.pickPos(n), d-1, same(c))}
+	case "unlesstest":
+		return &Form{K: "Unless", C: g.spine(d-1, c), A: []*Form{g.filler(), g.filler()}}
+	case "if":
+		// the spine continues in the branch that is taken (mostly)
+		t := g.test()
+		sp := g.spine(d-1, c)
+		other := g.filler()
+		if (t.K == "Const" && t.Lit == "nil") || (t.K != "Const" && g.rng.Bool()) {
+			return &Form{K: "If", C: t, A: []*Form{other, sp}}
+		}
+		return &Form{K: "If", C: t, A: []*Form{sp, other}}
+	case "iftest":
+		return &Form{K: "If", C: g.spine(d-1, c), A: []*Form{g.filler(), g.filler()}}
 	case "cond", "condtest":
 		ncl := 1 + g.rng.Intn(3)
 		pc := g.rng.Intn(ncl)
